@@ -107,6 +107,7 @@ type Run struct {
 	curFrame        *frame
 	watched         map[*value]string
 	pools           map[*value][]value
+	race            *raceState
 	pcHard          bool
 	hardScanned     int
 	altModel        map[string]uint64
